@@ -109,11 +109,36 @@ def run(ctx):
             elif op == "set":
                 kk = rng.choice([0, 1, n, n + 1, n + 3])
                 s = rng.choice([",", ", "]).join(rname() for _ in range(kk))
-                w.extended_properties[LN] = s
+                # a direct write is any way a mutable mapping can be written: item assignment, update() from a dict / a list of pairs /
+                # a one-shot iterator of pairs / keyword arguments, setdefault on an absent key, |= is not offered by the class
+                how = rng.choice(["setitem", "setitem", "update-dict", "update-pairs", "update-iter", "update-gen", "update-zip", "update-kwargs", "setdefault"])
+                ep = w.extended_properties
+                if how == "setitem": ep[LN] = s
+                elif how == "update-dict": ep.update({"zz": 1, LN: s})
+                elif how == "update-pairs": ep.update([(LN, s), ("zz", 2)])
+                elif how == "update-iter": ep.update(iter([("zz", 3), (LN, s)]))
+                elif how == "update-gen": ep.update((k_, v_) for k_, v_ in [(LN, s)])
+                elif how == "update-zip": ep.update(zip([LN], [s]))
+                elif how == "update-kwargs": ep.update(**{LN: s})
+                else:
+                    ep.pop(LN, None); ep.setdefault(LN, s)
+                ctx.count("direct-write", how)
                 lines.append(f"nset {enc(s)}"); expect.append("ok")
             elif op == "del":
-                if LN in w.extended_properties:
-                    del w.extended_properties[LN]
+                how = rng.choice(["del", "pop", "clear", "popitem"])
+                ep = w.extended_properties
+                if how == "del":
+                    if LN in ep:
+                        del ep[LN]
+                elif how == "pop":
+                    ep.pop(LN, None)
+                elif how == "clear":
+                    ep.clear()
+                else:
+                    # popitem until the entry is gone (MutableMapping.popitem removes the first key)
+                    while LN in ep:
+                        ep.popitem()
+                ctx.count("direct-delete", how)
                 lines.append("nset -"); expect.append("ok")
             elif op == "merge":
                 src = DigitalWaveform(1, n)
